@@ -89,6 +89,15 @@ Proof.
   rewrite (IH er (k + 1) s); [reflexivity|congruence|intros; apply Hd; right; assumption].
 Qed.
 
+Lemma tuple_binds_main_declared : forall xs es k s, length xs = length es ->
+  (forall x, In x xs -> is_declared x s = true) ->
+  tuple_binds_main xs es k s = (tup_asgs xs k, s).
+Proof.
+  induction xs as [|x xr IH]; intros [|e er] k s Hlen Hd; cbn in Hlen; try discriminate; [reflexivity|].
+  cbn [tuple_binds_main tup_asgs]. rewrite (Hd x (or_introl eq_refl)).
+  rewrite (IH er (k + 1) s); [reflexivity|congruence|intros; apply Hd; right; assumption].
+Qed.
+
 Lemma tuple_tmps_len : forall es k, length (tuple_tmps es k) = length es.
 Proof. induction es; intros; cbn; auto. Qed.
 
@@ -115,15 +124,25 @@ Proof. unfold rt. destruct ml; [|reflexivity]. destruct ld as [|ld']; [discrimin
 Lemma ml_S ml ld : implb ml (Nat.leb 1 ld) = true -> implb ml (Nat.leb 1 (S ld)) = true.
 Proof. destruct ml; reflexivity. Qed.
 
+Lemma no_top (ml : bool) : false = true -> ml = false.
+Proof. discriminate. Qed.
+
+Lemma drop_hoisted_nil l : drop_hoisted [] l = l.
+Proof.
+  unfold drop_hoisted. induction l as [|n l IH]; [reflexivity|]. cbn [filter].
+  replace (is_hoisted [] n) with false; [cbn [negb]; rewrite IH; reflexivity|].
+  destruct n; try reflexivity. cbn. destruct init; try reflexivity. destruct glob; reflexivity.
+Qed.
+
 Lemma tr_block_simple ml : forall f gf glob top lm ld s D L ps D' ns s',
   implb ml (Nat.leb 1 ld) = true ->
-  glob = top && negb lm -> implb lm (no_top_tuple D ps) = true ->
+  glob = top -> (top = true -> ml = lm) -> implb lm (no_top_tuple D ps) = true ->
   g_block gf top D L ps = Some D' -> Dec D L s ->
   tr_block ml f glob ld s ps = Some (ns, s') ->
   ns = fst (trm (rt ml ld) (tmpc s) top lm D ps) /\ globals s' = globals s ++ snd (trm (rt ml ld) (tmpc s) top lm D ps) /\ Dec D' L s'
   /\ (top = false -> tmpc s' = klist (tmpc s) ps).
 Proof.
-  induction f as [|f IH]; intros gf glob top lm ld s D L ps D' ns s' Hml HGL Htup HG HD H; [discriminate|].
+  induction f as [|f IH]; intros gf glob top lm ld s D L ps D' ns s' Hml HGL HLM Htup HG HD H; [discriminate|].
   destruct ps as [|p rest].
   - inversion H; subst. destruct gf; [discriminate|]. rewrite g_block_nil in HG. inversion HG; subst.
     rewrite trm_nil. cbn. rewrite app_nil_r. auto.
@@ -139,14 +158,16 @@ Proof.
                /\ (top = false -> tmpc s' = klist (tmpc s) (p :: rest))).
     { intros ns0 s1 nsp gsp KN HT Hr -> Hg Hd Hk1 Hk2.
       destruct (tr_block ml f glob ld s1 rest) as [[ms s2]|] eqn:E; [|discriminate].
-      inversion Hr; subst ns s'. destruct (IH _ _ top lm _ _ _ _ _ _ _ _ Hml HGL Htr HG Hd E) as (I1 & I2 & I3 & I4).
+      inversion Hr; subst ns s'. destruct (IH _ _ top lm _ _ _ _ _ _ _ _ Hml HGL HLM Htr HG Hd E) as (I1 & I2 & I3 & I4).
       rewrite HT. cbn [fst snd klist]. rewrite I1, I2, Hg, app_assoc, Hk1. repeat split; auto.
       intro Ht. rewrite (I4 Ht), Hk1, <- (Hk2 Ht). reflexivity. }
     destruct p; cbn [tr_block] in H.
     + (* PAssign *)
       cbn [g_step] in HS. destruct (fv_ok D L e); [|discriminate].
       destruct (tmem x L) eqn:HxL; [discriminate|]. cbn [negb orb] in HS.
-      unfold tr_assign, is_declared in H. rewrite (HD x), HxL, orb_false_r in H.
+      assert (Hrt : a_ty (rt_ann ml e) = a_ty e /\ a_id (rt_ann ml e) = a_id e) by (destruct ml; split; reflexivity).
+      destruct Hrt as [Hrt1 Hrt2].
+      unfold tr_assign, is_declared in H. rewrite Hrt1, Hrt2, (HD x), HxL, orb_false_r in H.
       destruct (tlookup x D) as [t|] eqn:Hl.
       * destruct (ty_eqb t (a_ty e)); [|discriminate]. inversion HS; subst D1.
         match type of H with context [tmem x ?l] => replace (tmem x l) with true in H by (symmetry; eapply tlookup_dom_true; eauto) end.
@@ -154,16 +175,18 @@ Proof.
         rewrite (trm_cons_old (rt ml ld) (tmpc s) top lm D x e rest _ Hl), tr1_unfold. reflexivity.
       * destruct top; [|discriminate]. destruct (is_tmp x); [discriminate|]. cbn [andb negb] in HS. inversion HS; subst D1.
         match type of H with context [tmem x ?l] => replace (tmem x l) with false in H by (symmetry; eapply tlookup_dom_false; eauto) end.
-        destruct lm; cbn [andb negb] in HGL; subst glob.
-        -- (* main-loop body: a local declaration in place *)
-           assert (HD1 : Dec (D ++ [(x, a_ty e)]) L (declare x (with_ty x (a_ty e) s))).
-           { intro y. cbn [declare with_ty declared]. rewrite map_app, !tmem_app, (HD y). cbn [map fst].
-             apply bool3. }
+        subst glob. pose proof (HLM eq_refl) as Hmlm.
+        assert (HD1 : forall g, Dec (D ++ [(x, a_ty e)]) L (add_global g (declare x (with_ty x (a_ty e) s)))).
+        { intros g y. cbn [add_global declare with_ty declared]. rewrite map_app, !tmem_app, (HD y). cbn [map fst].
+          apply bool3. }
+        destruct lm.
+        -- (* main-loop body: a global with the default initialiser + the assignment in place *)
+           assert (Hcc : closed_const (rt_ann ml e) = false) by (rewrite Hmlm; reflexivity).
+           rewrite Hcc in H.
            pose proof (trm_cons_newl (rt ml ld) (tmpc s) D x e rest Hl) as HT.
-           eapply (K _ _ [NDecl x (a_ty e) (XE (a_id e)) false] [] _); [exact HT|exact H|reflexivity|cbn; rewrite app_nil_r; reflexivity|apply HD1|reflexivity|intros _; reflexivity].
-        -- assert (HD1 : forall g, Dec (D ++ [(x, a_ty e)]) L (add_global g (declare x (with_ty x (a_ty e) s)))).
-           { intros g y. cbn [add_global declare with_ty declared]. rewrite map_app, !tmem_app, (HD y). cbn [map fst].
-             apply bool3. }
+           eapply (K _ _ [NAssign x (XE (a_id e))] [_] _); [exact HT|exact H|reflexivity|reflexivity|apply HD1|reflexivity|intros _; reflexivity].
+        -- assert (Hcc : closed_const (rt_ann ml e) = closed_const e) by (rewrite Hmlm; reflexivity).
+           rewrite Hcc in H.
            pose proof (trm_cons_new (rt ml ld) (tmpc s) D x e rest Hl) as HT.
            destruct (closed_const e).
            ++ eapply (K _ _ [] [_] _); [exact HT|exact H|reflexivity|reflexivity|apply HD1|reflexivity|intros _; reflexivity].
@@ -182,9 +205,20 @@ Proof.
         destruct (tuple_asg_ok_inv _ _ _ _ Hq) as (Hne & _ & Hty).
         destruct (tuple_asg_tys_inv _ _ _ _ Hty) as [Hlen Hdom].
         head_opt H a0 a1 E.
-        unfold tr_tuple in E. rewrite Hlen, Nat.leb_refl, firstn_all in E. cbn [negb] in E.
         assert (Hdec : forall x, In x xs -> is_declared x s = true).
         { intros x Hx. unfold is_declared. rewrite (HD x). destruct (Hdom x Hx) as [A _]. rewrite A. reflexivity. }
+        assert (E0 : tr_tuple false xs es s = Some (a0, a1) \/ tr_tuple glob xs es s = Some (a0, a1)).
+        { destruct (glob && ml) eqn:Egm; [left|right; exact E].
+          unfold tr_tuple_main in E. unfold tr_tuple. rewrite Hlen, Nat.leb_refl, firstn_all in *. cbn [negb] in *.
+          rewrite andb_false_r. cbv zeta in E |- *.
+          destruct (set_tys_same xs es s) as [Y1 Y2].
+          rewrite tuple_binds_main_declared in E; [|exact Hlen|].
+          2:{ intros x Hx. unfold is_declared. cbn [with_tmpc declared]. rewrite Y1. apply Hdec. exact Hx. }
+          rewrite tuple_binds_declared; [exact E|exact Hlen|].
+          intros x Hx. unfold is_declared. cbn [with_tmpc declared]. rewrite Y1. apply Hdec. exact Hx. }
+        clear E. assert (E : exists g0, tr_tuple g0 xs es s = Some (a0, a1)) by (destruct E0 as [E0|E0]; eexists; exact E0).
+        destruct E as [g0 E].
+        unfold tr_tuple in E. rewrite Hlen, Nat.leb_refl, firstn_all in E. cbn [negb] in E.
         assert (Hall : forallb (fun x => negb (is_declared x s)) xs = false).
         { destruct xs as [|x xr]; [congruence|]. cbn [forallb]. rewrite (Hdec x (or_introl eq_refl)). reflexivity. }
         rewrite Hall in E. cbn [andb] in E.
@@ -198,7 +232,7 @@ Proof.
         - intro y. cbn [with_tmpc declared]. rewrite Y1. apply HD. }
       destruct (top && tuple_decl_ok D L xs es) eqn:Hk; [|discriminate].
       inversion HS; subst D1. apply andb_true_iff in Hk as [-> Hk].
-      destruct lm; [exfalso; cbn [implb] in Htup; eapply no_top_tuple_decl; eauto|]. cbn [andb negb] in HGL. subst glob.
+      destruct lm; [exfalso; cbn [implb] in Htup; eapply no_top_tuple_decl; eauto|]. subst glob. replace (true && ml) with false in H by (rewrite (HLM eq_refl); reflexivity).
       destruct (tuple_decl_ok_inv _ _ _ _ Hk) as (Hlen & _ & Hnew & Hnd).
       head_opt H a0 a1 E.
       unfold tr_tuple in E. rewrite Hlen, Nat.leb_refl, firstn_all in E. cbn [negb] in E.
@@ -229,7 +263,7 @@ Proof.
       { rewrite (trm_cons_other (rt ml ld) (tmpc s) top lm D (PIf c body elifs els) rest I), tr1_unfold. reflexivity. }
       head_opt H a0 a1 E.
       destruct (tr_block ml f false ld (child_of s (globals s)) body) as [[ns1 cs1]|] eqn:E1; [|discriminate].
-      destruct (IH _ false false false _ _ _ _ _ _ _ _ Hml eq_refl eq_refl H1 (Dec_child D L s (globals s) HD) E1) as (I1 & I2 & I3 & I4).
+      destruct (IH _ false false false _ _ _ _ _ _ _ _ Hml eq_refl (no_top ml) eq_refl H1 (Dec_child D L s (globals s) HD) E1) as (I1 & I2 & I3 & I4).
       cbn [trm fst snd child_of globals tmpc] in I1, I2, I4. rewrite app_nil_r in I2.
       match type of E with
       | context [?B (globals cs1) elifs] => set (BR := B) in *
@@ -244,16 +278,16 @@ Proof.
         - destruct (tr_block ml f false ld (child_of s gl) b) as [[nsb cs]|] eqn:Eb; [|discriminate].
           destruct (BR (globals cs) r) as [[rest' gl'']|] eqn:Er; [|discriminate].
           inversion Hb; subst brs gl''. clear Hb.
-          destruct (IH _ false false false _ _ _ _ _ _ _ _ Hml eq_refl eq_refl (Hgd (c', b) (or_introl eq_refl)) (Dec_child D L s gl HD) Eb) as (J1 & J2 & J3 & J4).
+          destruct (IH _ false false false _ _ _ _ _ _ _ _ Hml eq_refl (no_top ml) eq_refl (Hgd (c', b) (or_introl eq_refl)) (Dec_child D L s gl HD) Eb) as (J1 & J2 & J3 & J4).
           cbn [trm fst snd child_of globals tmpc] in J1, J2. rewrite app_nil_r in J2.
           destruct (IHl (globals cs) rest' gl') as (K1 & K2 & K3); [congruence|intros; apply Hgd; right; assumption|exact Er|].
           split; [exact K1|]. split; [cbn; rewrite K2, J1; reflexivity|constructor; assumption]. }
       destruct (BR (globals cs1) elifs) as [[brs0 gl1]|] eqn:Ebr; [|discriminate].
       destruct (HB elifs (globals cs1) brs0 gl1 I2 H2' Ebr) as (B1 & B2 & B3).
       assert (RW : forall (brs : list (Z * list cnode * tst)),
-                 map (fun x : Z * list cnode * tst => (fst (fst x), map (rewrite_if []) (snd (fst x)))) brs
+                 map (fun x : Z * list cnode * tst => (fst (fst x), map (rewrite_if []) (drop_hoisted [] (snd (fst x))))) brs
                  = map (fun x : Z * list cnode * tst => (fst (fst x), snd (fst x))) brs).
-      { intro l. apply map_ext. intros [[c0 n0] t0]. cbn. rewrite map_rewrite_if_nil. reflexivity. }
+      { intro l. apply map_ext. intros [[c0 n0] t0]. cbn [fst snd]. rewrite drop_hoisted_nil, map_rewrite_if_nil. reflexivity. }
       assert (FIN : forall (elsn : list cnode) (ctxs : list tst) (COL : list tst -> list ident -> list (ident * ty)),
                  (forall cl seen, Forall (Dec D L) cl -> COL cl seen = @nil (ident * ty)) ->
                  Forall (Dec D L) ctxs -> elsn = trn (rt ml ld) (tmpc s) els ->
@@ -261,14 +295,14 @@ Proof.
                     promo_decls glob (COL ctxs [])
                       (fold_left (fun acc xt => with_ty (fst xt) (snd xt) acc) (COL ctxs [])
                          {| declared := declared s; vtypes := vtypes s; globals := gl1; tmpc := tmpc s |}) in
-                  Some (decls ++ [NIf (map (fun x : Z * list cnode * tst => (fst (fst x), map (rewrite_if (map fst (COL ctxs []))) (snd (fst x))))
+                  Some (decls ++ [NIf (map (fun x : Z * list cnode * tst => (fst (fst x), map (rewrite_if (map fst (COL ctxs []))) (drop_hoisted (map fst (COL ctxs [])) (snd (fst x)))))
                                          ((a_id c, ns1, cs1) :: brs0))
-                                      (map (rewrite_if (map fst (COL ctxs []))) elsn)], s3)) = Some (a0, a1) ->
+                                      (map (rewrite_if (map fst (COL ctxs []))) (drop_hoisted (map fst (COL ctxs [])) elsn))], s3)) = Some (a0, a1) ->
                  ns = fst (trm (rt ml ld) (tmpc s) top lm D (PIf c body elifs els :: rest)) /\
                    globals s' = globals s ++ snd (trm (rt ml ld) (tmpc s) top lm D (PIf c body elifs els :: rest)) /\ Dec D' L s' /\
                    (top = false -> tmpc s' = klist (tmpc s) (PIf c body elifs els :: rest))).
       { intros elsn ctxs COL HCOL HF -> HE. rewrite (HCOL ctxs [] HF) in HE.
-        cbn [promo_decls fold_left map] in HE. rewrite RW in HE. rewrite !map_rewrite_if_nil in HE. cbn [map fst snd] in HE.
+        cbn [promo_decls fold_left map] in HE. rewrite RW in HE. rewrite ?drop_hoisted_nil, !map_rewrite_if_nil in HE. cbn [map fst snd] in HE.
         rewrite B2, I1 in HE. inversion HE; subst a0 a1. clear HE.
         eapply (K _ _ _ _ _ HT); [exact H|reflexivity|cbn [globals]; rewrite B1, app_nil_r; reflexivity|exact HD|reflexivity|intros _; reflexivity]. }
       assert (HCOLg : forall cl seen, Forall (Dec D L) cl ->
@@ -288,7 +322,7 @@ Proof.
       * eapply (FIN [] (map (fun x : Z * list cnode * tst => snd x) ((a_id c, ns1, cs1) :: brs0) ++ []) _ HCOLg); [|reflexivity|exact E].
         apply Forall_app. split; [exact B3'|constructor].
       * destruct (tr_block ml f false ld (child_of s gl1) (e0 :: els')) as [[nse cse]|] eqn:Ee; [|discriminate].
-        destruct (IH _ false false false _ _ _ _ _ _ _ _ Hml eq_refl eq_refl H3 (Dec_child D L s gl1 HD) Ee) as (J1 & J2 & J3 & J4).
+        destruct (IH _ false false false _ _ _ _ _ _ _ _ Hml eq_refl (no_top ml) eq_refl H3 (Dec_child D L s gl1 HD) Ee) as (J1 & J2 & J3 & J4).
         cbn [trm fst snd child_of globals tmpc] in J1, J2. rewrite app_nil_r in J2.
         cbn [globals] in E. rewrite J2 in E.
         eapply (FIN nse (map (fun x : Z * list cnode * tst => snd x) ((a_id c, ns1, cs1) :: brs0) ++ [cse]) _ HCOLg); [|exact J1|exact E].
@@ -299,10 +333,10 @@ Proof.
       inversion HS; subst D1. apply andb_true_iff in Hc as [_ H1]. apply nested_true in H1.
       head_opt H a0 a1 E.
       destruct (tr_block ml f false (S ld) (child_of s (globals s)) body) as [[nsb cs]|] eqn:Eb; [|discriminate].
-      destruct (IH _ false false false _ _ _ _ _ _ _ _ (ml_S _ _ Hml) eq_refl eq_refl H1 (Dec_child D L s (globals s) HD) Eb) as (I1 & I2 & I3 & I4).
+      destruct (IH _ false false false _ _ _ _ _ _ _ _ (ml_S _ _ Hml) eq_refl (no_top ml) eq_refl H1 (Dec_child D L s (globals s) HD) Eb) as (I1 & I2 & I3 & I4).
       cbn [trm fst snd child_of globals tmpc] in I1, I2, I4. rewrite app_nil_r in I2.
       rewrite (Dec_new_names D L s cs HD I3) in E. rewrite filter_tmem_nil in E.
-      cbn [dedup app filter map fold_left promo_decls] in E. rewrite map_rewrite_deep_nil in E.
+      cbn [dedup app filter map fold_left promo_decls] in E. rewrite drop_hoisted_nil, map_rewrite_deep_nil in E.
       inversion E; subst a0 a1. clear E.
       rewrite (rt_S _ _ Hml) in I1.
       eapply (K _ _ [NWhile (a_id c) (trn false (tmpc s) body)] [] _);
@@ -327,10 +361,10 @@ Proof.
       assert (HDb : Dec D (x :: L) base).
       { intro y. unfold base. cbn [declared]. rewrite tmem_app, (HD y). cbn [tmem].
         destruct (tmem y (map fst D)), (tmem y L), (text_eqb y x); reflexivity. }
-      destruct (IH _ false false false _ _ _ _ _ _ _ _ (ml_S _ _ Hml) eq_refl eq_refl H8 HDb Eb) as (I1 & I2 & I3 & I4).
+      destruct (IH _ false false false _ _ _ _ _ _ _ _ (ml_S _ _ Hml) eq_refl (no_top ml) eq_refl H8 HDb Eb) as (I1 & I2 & I3 & I4).
       cbn [trm fst snd tmpc] in I1, I2, I4. rewrite app_nil_r in I2.
       rewrite (Dec_new_names D (x :: L) base cs HDb I3) in E. rewrite filter_tmem_nil in E.
-      cbn [dedup app filter map fold_left promo_decls] in E. rewrite map_rewrite_deep_nil in E.
+      cbn [dedup app filter map fold_left promo_decls] in E. rewrite drop_hoisted_nil, map_rewrite_deep_nil in E.
       inversion E; subst a0 a1. clear E.
       rewrite (rt_S _ _ Hml) in I1.
       eapply (K _ _ [NFor x (a_id cnt) (trn false (tmpc s) body)] [] _);
